@@ -237,11 +237,14 @@ func (p *parser) expr() Expr {
 			if n.kind != "ident" {
 				panic("quantifier variable expected")
 			}
-			ty := p.next()
-			if ty.kind != "ident" {
+			ty := ""
+			for !(p.isOp(",") || p.isOp("::") || p.peek().kind == "eof") {
+				ty += p.next().text
+			}
+			if ty == "" {
 				panic("quantifier type expected")
 			}
-			vars = append(vars, QVar{n.text, ty.text})
+			vars = append(vars, QVar{n.text, ty})
 			if !p.accept(",") {
 				break
 			}
